@@ -2,7 +2,7 @@ use super::expr;
 use super::objcode::{CallbackCode, ObjectCodeMap, PropertyCode, PropertyCodeKind};
 use crate::diagnostic::{Diagnostic, Diagnostics};
 use crate::objtree::{ObjectNode, ObjectTree};
-use crate::opcode::{BinaryArithOp, BinaryOp, BuiltinFunctionKind, ConsoleLogLevel};
+use crate::opcode::{BinaryArithOp, BinaryOp, BuiltinFunctionKind, ConsoleLogLevel, UnaryOp};
 use crate::qtname::{self, FileNameRules, UniqueNameGenerator};
 use crate::tir;
 use crate::typedexpr::DescribeType as _;
@@ -863,7 +863,31 @@ impl CxxCodeBodyTranslator {
         use tir::Rvalue;
         match rv {
             Rvalue::Copy(a) => self.format_operand(a),
+            Rvalue::UnaryOp(op @ UnaryOp::Bitwise(_), a) => {
+                let expr = format!("{}{}", op, self.format_operand(a));
+                match enum_operand_type(a) {
+                    // ~enum is int (or QFlags), which isn't converted back to enum implicitly
+                    Some(ty) => format!(
+                        "static_cast<{}>(static_cast<int>({}))",
+                        ty.qualified_cxx_name(),
+                        expr
+                    ),
+                    None => expr,
+                }
+            }
             Rvalue::UnaryOp(op, a) => format!("{}{}", op, self.format_operand(a)),
+            Rvalue::BinaryOp(op @ BinaryOp::Bitwise(_), l, r) => {
+                let expr = format!("{} {} {}", self.format_operand(l), op, self.format_operand(r));
+                match enum_operand_type(l).or_else(|| enum_operand_type(r)) {
+                    // enum & enum is int (or QFlags), which isn't converted back to enum implicitly
+                    Some(ty) => format!(
+                        "static_cast<{}>(static_cast<int>({}))",
+                        ty.qualified_cxx_name(),
+                        expr
+                    ),
+                    None => expr,
+                }
+            }
             Rvalue::BinaryOp(op, l, r) if is_double_rem(op, l, r) => format!(
                 "std::fmod({}, {})", // operator% is not defined for double
                 self.format_operand(l),
@@ -1042,6 +1066,16 @@ fn uint_template_argument(args: &[tir::Operand]) -> &'static str {
         "<uint>"
     } else {
         ""
+    }
+}
+
+/// Type of the bitwise operation deduced by TIR builder if the operand is of enum type.
+fn enum_operand_type<'a>(a: &tir::Operand<'a>) -> Option<TypeKind<'a>> {
+    use crate::typedexpr::TypeDesc;
+    use crate::typemap::NamedType;
+    match a.type_desc() {
+        TypeDesc::Concrete(ty @ TypeKind::Just(NamedType::Enum(_))) => Some(ty),
+        _ => None,
     }
 }
 
